@@ -72,6 +72,72 @@ func callIndexOfRole(name string) int {
 	return -1
 }
 
+// diverged: the implementation cannot follow the model's schedule at step idx.  The session is then CONTINUED on the
+// real client alone, gate by gate, under a deterministic scheduler (keep running the current agent while it is
+// enabled, else the first enabled one; the peer accepts and answers) until nothing is enabled any more: if an Execute
+// or Close has still not returned the divergence is not just a difference of traces but a hang, and the observation
+// carries it (`then (stuck 1) FINAL (choices ...)`); the schedule prefix + those choices is the failing input.
+func (r *running) diverged(idx int, role, want, got string) *sx.Node {
+	d := sx.L(sx.A("diverged"), sx.I(int64(idx)), sx.A(role), sx.A(want), sx.A(got))
+	d.Append(r.continueFree())
+	return d
+}
+
+func (r *running) continueFree() *sx.Node {
+	r.tr.mu.Lock()
+	r.tr.free = true
+	r.tr.cond.Broadcast()
+	r.tr.mu.Unlock()
+	waitQuiescent()
+	trace := sx.L(sx.A("choices"))
+	cur := ""
+	for steps := 0; steps < 3000; steps++ {
+		en := r.enabled()
+		if len(en) == 0 {
+			break
+		}
+		k := 0
+		for i, a := range en {
+			if a.name == cur {
+				k = i
+			}
+		}
+		pick := en[k]
+		cur = pick.name
+		r.takeStep(pick)
+		trace.Append(sx.A(pick.name))
+	}
+	// Close in waitWithTimeout (its waiter goroutine exists): the 5 s timer decides, wait for it (bounded)
+	if r.s.close && sch.find("waiter") != nil {
+		for i := 0; i < 800; i++ {
+			r.mu.Lock()
+			d := r.closeRes != ""
+			r.mu.Unlock()
+			if d {
+				break
+			}
+			time.Sleep(10 * time.Millisecond)
+		}
+	}
+	obs := r.observe()
+	return sx.L(sx.A("then"), sx.L(sx.A("stuck"), sx.B(r.stuck())), obs, trace)
+}
+
+// parkedAt returns the gate the role is parked at; a role that is not parked is looked at again after a confirmed
+// quiescence before the driver concludes that it never got to a gate.
+func parkedAt(role *role) *parked {
+	sch.mu.Lock()
+	at := role.at
+	sch.mu.Unlock()
+	if at == nil {
+		confirmQuiescent()
+		sch.mu.Lock()
+		at = role.at
+		sch.mu.Unlock()
+	}
+	return at
+}
+
 // replaySchedule forces the steps; returns the observation.
 func replaySchedule(s *session, steps []mstep) *sx.Node {
 	r, err := startSession(s)
@@ -84,11 +150,11 @@ func replaySchedule(s *session, steps []mstep) *sx.Node {
 			switch st.label {
 			case "accept":
 				if _, ok := r.peerAccept(); !ok {
-					return sx.L(sx.A("diverged"), sx.I(int64(idx)), sx.A("peer"), sx.A("accept"), sx.A("nothing-to-accept"))
+					return r.diverged(idx, "peer", "accept", "nothing-to-accept")
 				}
 			case "send":
 				if !r.sendable(st.sarg) {
-					return sx.L(sx.A("diverged"), sx.I(int64(idx)), sx.A("peer"), sx.A("send"), sx.A("not-sendable"))
+					return r.diverged(idx, "peer", "send", "not-sendable")
 				}
 				r.peerSend(st.sarg)
 			}
@@ -111,7 +177,11 @@ func replaySchedule(s *session, steps []mstep) *sx.Node {
 		}
 		role := sch.find(st.role)
 		if role == nil {
-			return sx.L(sx.A("diverged"), sx.I(int64(idx)), sx.A(st.role), sx.A(st.label), sx.A("no-such-goroutine"))
+			confirmQuiescent()
+			role = sch.find(st.role)
+		}
+		if role == nil {
+			return r.diverged(idx, st.role, st.label, "no-such-goroutine")
 		}
 		switch st.label {
 		case "decode":
@@ -131,11 +201,9 @@ func replaySchedule(s *session, steps []mstep) *sx.Node {
 				ns, _ := strconv.Atoi(f[1])
 				nc, _ := strconv.Atoi(f[2])
 				for ns+nc > 0 {
-					sch.mu.Lock()
-					at := role.at
-					sch.mu.Unlock()
+					at := parkedAt(role)
 					if at == nil {
-						return sx.L(sx.A("diverged"), sx.I(int64(idx)), sx.A(st.role), sx.A(want), sx.A("not-parked"))
+						return r.diverged(idx, st.role, want, "not-parked")
 					}
 					switch {
 					case at.kind == "Signal" && ns > 0:
@@ -143,7 +211,7 @@ func replaySchedule(s *session, steps []mstep) *sx.Node {
 					case at.kind == "ChanClose" && nc > 0:
 						nc--
 					default:
-						return sx.L(sx.A("diverged"), sx.I(int64(idx)), sx.A(st.role), sx.A(want), sx.A(at.kind))
+						return r.diverged(idx, st.role, want, at.kind)
 					}
 					sch.release(role, false)
 				}
@@ -152,14 +220,12 @@ func replaySchedule(s *session, steps []mstep) *sx.Node {
 				sch.mu.Unlock()
 				continue
 			}
-			sch.mu.Lock()
-			at := role.at
-			sch.mu.Unlock()
+			at := parkedAt(role)
 			if at == nil {
-				return sx.L(sx.A("diverged"), sx.I(int64(idx)), sx.A(st.role), sx.A(want), sx.A("not-parked"))
+				return r.diverged(idx, st.role, want, "not-parked")
 			}
 			if at.kind != want {
-				return sx.L(sx.A("diverged"), sx.I(int64(idx)), sx.A(st.role), sx.A(want), sx.A(at.kind))
+				return r.diverged(idx, st.role, want, at.kind)
 			}
 			sch.releaseOne(role)
 		}
@@ -170,6 +236,10 @@ func replaySchedule(s *session, steps []mstep) *sx.Node {
 // observe prints the final state of the session.
 func (r *running) observe() *sx.Node {
 	waitQuiescent()
+	if r.stuck() {
+		// something has not returned: make sure that this is not a goroutine the machine has not scheduled yet
+		confirmQuiescent()
+	}
 	traces := sx.L(sx.A("traces"))
 	sch.mu.Lock()
 	names := append([]string(nil), sch.order...)
